@@ -41,7 +41,7 @@ func (m *Machine) constText(s string) Text {
 		id = m.textID("const:" + s)
 	}
 	lit := s
-	return Text{m.IntC(int64(w)), m.IntC(int64(len(s))), m.IntC(int64(nl)), m.IntC(0), id, &lit}
+	return Text{W: m.IntC(int64(w)), N: m.IntC(int64(len(s))), NL: m.IntC(int64(nl)), CUU: m.IntC(0), ID: id, Lit: &lit}
 }
 
 // textID returns a distinct constant id per distinct key.
@@ -79,7 +79,19 @@ func (m *Machine) Concat(a, b Text) Text {
 			id = m.textID("const:" + l)
 		}
 	}
-	return Text{m.add(a.W, b.W), m.add(a.N, b.N), m.add(a.NL, b.NL), m.add(a.CUU, b.CUU), id, lit}
+	as, ak := m.seqOf(a)
+	bs, bk := m.seqOf(b)
+	seq := as
+	if k, ok := bk.Int64(); ok && k >= 0 && k < 14 {
+		pow := int64(1)
+		for i := int64(0); i < k; i++ {
+			pow *= 16
+		}
+		seq = m.add(c.Bin(sym.OpMul, as, m.IntC(pow)), bs)
+	} else {
+		seq = c.UF("seqcat", m.intSort(), as, bs, bk)
+	}
+	return Text{m.add(a.W, b.W), m.add(a.N, b.N), m.add(a.NL, b.NL), m.add(a.CUU, b.CUU), id, lit, seq, m.add(ak, bk)}
 }
 
 func (m *Machine) add(a, b T) T { return m.C.Bin(sym.OpAdd, a, b) }
